@@ -34,7 +34,7 @@ PROPS = {
         "assumptions": COMMON_ASSUME,
     },
     "C03": {
-        "arms": [arm("solve", 1, weight=5), arm("solve", 0, weight=3), arm("config", 0, "asan0", weight=1)],
+        "arms": [arm("solve", 1, weight=5), arm("solve", 0, weight=3), arm("hist", 0, weight=2), arm("config", 0, "asan0", weight=1)],
         "rule": "non-trivial = at least one QSexact_solver call under default limits whose result was compared with the self-certifying reference simplex (LPs up to 10x10), fault-free (batch A) or with recoverable float-stage faults confined to stages strictly before the last executed one (batch B); distinct = distinct plan hashes",
         "assumptions": COMMON_ASSUME + ["ground truth limited to LPs the dense reference simplex handles (<= 10 rows, <= 10 columns)"],
     },
